@@ -45,6 +45,10 @@ CLAIMED = {
             "selector / partial bin tables (both strategy branches, enum and integer chromosome ids), on coolers with symbolic table contents.", "4/C14"),
     "C15": ("all sequences of 2 (thorough: 3) operations out of create(a/w)/cp/mv/ln hard/soft/external/overwrite over two files are executed on the "
             "in-memory HDF5 model with symbolic contents against a reference namespace model; every explored path is replayed on real h5py.", "4/C15"),
+    "C16": ("Decided parts: cooler dump's function body with solver-chosen flags/regions/chunk size on symbolic pixels (rows == the records the options "
+            "describe, --columns honoured); cload pairs / load run to the parser call with symbolic field numbers (every name bound to the requested column "
+            "under the documented read_csv contract) and every explored layout replayed end to end through the real command; zoomify -r spec expansion "
+            "with a symbolic genome length. NOT decided: CSV rendering/parsing, gzip, number formatting.", "4/C16"),
     "C17": ("create_scool with 1-3 cells and symbolic per-cell tables / per-cell bin columns: each cell reads back its own table, bins columns are the "
             "root's objects (hard links), listing == names, recognised as scool.", "4/C17"),
     "C18": ("rename_chroms with every subset renamed, chains of two renamings, enum and integer encodings, symbolic contents: names substituted in order "
